@@ -12,28 +12,46 @@ import itertools
 import random
 
 TEXT = [['Some text about the function.'], ['', 'More text,', 'on two lines.'], ['Args:', '    x (int): a number', ''],
-        ['']]
+        [''], ['Returns:', '\tint: a tab-indented line', '']]
 
 
-def code_block(ids, indent, want, raise_at=None, label=None):
-    """Lines of one doctest block; ids: list of unique statement numbers."""
+def code_block(ids, indent, want, raise_at=None, label=None, rnd=None):
+    """(lines, labels) of one doctest block; ids: list of unique statement numbers; labels: 'text' | 'src' | 'want'."""
     out = []
+    labels = []
     pad = ' ' * indent
     if label is not None:
         out.append(pad + label)
+        labels.append('text')
         pad += '    '
     for n, k in enumerate(ids):
+        shape = n % 3 if rnd is None else rnd.randrange(5)
         if raise_at == k:
             out.append(pad + ">>> raise ValueError('stmt%d')" % k)
-        elif n % 3 == 2:
+            labels.append('src')
+        elif shape == 2:
             out.append(pad + '>>> def f%d():' % k)
             out.append(pad + '...     return %d' % k)
+            labels += ['src', 'src']
+        elif shape == 3:
+            # a bracket left open, completed by a `... ` line, then a bare `...` terminator
+            out.append(pad + '>>> w%d = [%d,' % (k, k))
+            out.append(pad + '...        %d]' % k)
+            out.append(pad + '...')
+            labels += ['src', 'src', 'src']
+        elif shape == 4:
+            out.append(pad + '>>> u%d = (%d +' % (k, k))
+            out.append(pad + '>>>        %d)' % k)
+            labels += ['src', 'src']
         else:
             out.append(pad + '>>> v%d = %d' % (k, k))
+            labels.append('src')
     if want:
-        out.append(pad + ">>> print('out%d')" % ids[-1])
+        out.append(pad + ">>> print('out%d' + chr(10) + 'more%d')" % (ids[-1], ids[-1]))
         out.append(pad + 'out%d' % ids[-1])
-    return out
+        out.append(pad + 'more%d' % ids[-1])
+        labels += ['src', 'want', 'want']
+    return out, labels
 
 
 def docstrings(tier, seed):
@@ -42,12 +60,20 @@ def docstrings(tier, seed):
     for _ in range(n):
         k = 0
         lines = []
-        stmts = []       # (docstring line index, statement id) of every code line that starts a statement
+        labels = []
         n_blocks = rnd.randint(1, 4)
         style = rnd.choice(['freeform', 'google'])
         raise_at = None
+        prev_want = False
         for b in range(n_blocks):
-            lines.extend(rnd.choice(TEXT))
+            # usually prose between blocks; sometimes the next block follows a want directly (at another indentation)
+            adjacent = prev_want and rnd.random() < 0.3
+            if not adjacent:
+                t = rnd.choice(TEXT)
+                if b > 0 and t[0] != '':
+                    t = [''] + t        # prose right after source or a want would be (more) want: a blank line ends the example
+                lines.extend(t)
+                labels.extend(['text'] * len(t))
             ids = list(range(k, k + rnd.randint(1, 4)))
             k = ids[-1] + 1
             label = None
@@ -55,16 +81,67 @@ def docstrings(tier, seed):
                 label = rnd.choice(['Example:', 'Doctest:', 'Example:', 'Notes:'])
             elif rnd.random() < 0.25:
                 label = rnd.choice(['SkipDoctest:', 'Ignore:', 'AnythingElse:'])
+            if adjacent:
+                label = None        # a label line right after a want would be one more want line
             if raise_at is None and rnd.random() < 0.4:
                 raise_at = rnd.choice(ids)
-            lines.extend(code_block(ids, rnd.choice([0, 4]), rnd.random() < 0.5, raise_at, label))
-        lines.extend(rnd.choice(TEXT))
-        yield style, lines, raise_at
+            prev_want = rnd.random() < 0.5
+            bl, bb = code_block(ids, rnd.choice([0, 4, 8]), prev_want, raise_at, label, rnd)
+            lines.extend(bl)
+            labels.extend(bb)
+        t = [''] + rnd.choice(TEXT)
+        lines.extend(t)
+        labels.extend(['text'] * len(t))
+        yield style, lines, raise_at, labels
 
 
 def line_of(lines, needle):
     hits = [j for j, ln in enumerate(lines) if needle in ln]
     return hits[0] if len(hits) == 1 else None
+
+
+def check_partition(parser_mod, lines, labels):
+    """C13: the parts, laid end to end, reproduce the (commonly de-indented) docstring line for line, each part knows the index
+    of its first line, and want lines are exactly the non-prompt lines that follow source."""
+    docstr = '\n'.join(lines)
+    parts = parser_mod.DoctestParser().parse(docstr)
+    lines = docstr.expandtabs().splitlines()
+    indents = [len(ln) - len(ln.lstrip()) for ln in lines if ln.strip()]
+    cut = min(indents) if indents else 0
+    expected = [ln[cut:] if ln.strip() else ln.strip() for ln in lines]
+    recon = []
+    got_labels = []
+    code_rows = set()       # rows that come from source / want lines: the indentation of their prompt is removed
+    for part in parts:
+        if isinstance(part, str):
+            recon.extend(part.split('\n'))
+            got_labels.extend(['text'] * len(part.split('\n')))
+        else:
+            got_labels.extend(['src'] * len(part.orig_lines) + ['want'] * len(part.want_lines or []))
+            code_rows.update(range(len(recon), len(recon) + len(part.orig_lines) + len(part.want_lines or [])))
+            if part.line_offset != len(recon):
+                return 'a part that starts at line %d of the docstring records line_offset %d' % (len(recon), part.line_offset)
+            recon.extend(part.orig_lines)
+            recon.extend(part.want_lines or [])
+            if any(w.lstrip().startswith('>>> ') for w in (part.want_lines or [])):
+                return 'a prompt line is inside a want: %r' % (part.want_lines,)
+    norm = [ln if ln.strip() else '' for ln in recon]
+    # blank lines at the very end of the docstring are not compared (the common de-indent drops the final line break)
+    while norm and norm[-1] == '':
+        norm.pop()
+    while expected and expected[-1] == '':
+        expected.pop()
+    if len(norm) != len(expected):
+        return 'the docstring has %d lines, the parts %d' % (len(expected), len(norm))
+    for j, (a, b) in enumerate(zip(norm, expected)):
+        same = (a == b) or (j in code_rows and b.endswith(a) and b[:len(b) - len(a)].strip(' ') == '' and a == a.lstrip(' ')[:len(a)])
+        if not same:
+            return 'line %d of the docstring is %r but the parts give %r' % (j, b, a)
+    want_labels = labels[:len(expected)]
+    for j, (a, b) in enumerate(zip(got_labels[:len(expected)], want_labels)):
+        if a != b:
+            return 'line %d (%r) is %s by construction but the parser made it %s' % (j, expected[j], b, a)
+    return None
 
 
 def check_docstring(core, style, lines, raise_at, L):
@@ -104,11 +181,21 @@ def check_docstring(core, style, lines, raise_at, L):
 def run(eng, tier, seed):
     import importlib
     core = importlib.import_module('xdoctest.core')
+    parser_mod = importlib.import_module('xdoctest.parser')
     n = 0
     cex = None
+    n13 = 0
+    cex13 = None
     count = 0
-    for style, lines, raise_at in docstrings(tier, seed):
+    for style, lines, raise_at, labels in docstrings(tier, seed):
         count += 1
+        try:
+            problem13 = check_partition(parser_mod, lines, labels)
+        except Exception as ex:      # noqa
+            problem13 = 'harness/parse: %r' % (ex,)
+        n13 += 1
+        if problem13 is not None and cex13 is None:
+            cex13 = {'docstring_lines': lines, 'problem': problem13}
         for L in (1, 17):
             try:
                 k, problem = check_docstring(core, style, lines, raise_at, L)
@@ -123,4 +210,8 @@ def run(eng, tier, seed):
     return {'bounded': [{'name': 'C08.line-numbers-point-at-their-text',
                          'bound': '%d random docstrings (freeform and google layout, 1..4 code blocks, text between them, skip labels, '
                                   'indentation 0/4) x 2 docstring start lines' % count,
-                         'evaluations': n, 'counterexample': cex}]}
+                         'evaluations': n, 'counterexample': cex},
+                        {'name': 'C13.parts-reproduce-the-docstring',
+                         'bound': 'the same %d random docstrings: the parts laid end to end give back every line once, in order, and '
+                                  'every part records the index of its first line' % count,
+                         'evaluations': n13, 'counterexample': cex13}]}
